@@ -171,7 +171,27 @@ func wrapSearch(pat string) string {
 // LangEqual decides whether two language specs denote the same set of strings over all Unicode strings of rune length up to
 // maxLen+1 (maxLen = largest finite bound involved; both specs must be finitely bounded or both unbounded with equal patterns).
 // Returns a shortest distinguishing string when they differ.
-func LangEqual(a, b LangSpec) (bool, string, error) {
+func LangEqual(a, b LangSpec) (bool, string, error) { return langCompare(a, b, false) }
+
+// LangSubset decides L(a) ⊆ L(b); the witness is a shortest string of a that b rejects.
+func LangSubset(a, b LangSpec) (bool, string, error) {
+	if a.Pat == "" && b.Pat == "" {
+		ok := a.Lo >= b.Lo && (b.Hi < 0 || (a.Hi >= 0 && a.Hi <= b.Hi))
+		w := ""
+		if !ok {
+			w = fmt.Sprintf("a string of %d bytes", func() int {
+				if a.Lo < b.Lo {
+					return a.Lo
+				}
+				return b.Hi + 1
+			}())
+		}
+		return ok, w, nil
+	}
+	return langCompare(a, b, true)
+}
+
+func langCompare(a, b LangSpec, subset bool) (bool, string, error) {
 	ra, err := compileRe(wrapSearch(a.Pat))
 	if err != nil {
 		return false, "", err
@@ -225,7 +245,7 @@ func LangEqual(a, b LangSpec) (bool, string, error) {
 		eb := rb.closure(cur.sb, cur.n == 0, true)
 		accA := ra.accepts(ea) && inLen(a, cur.n)
 		accB := rb.accepts(eb) && inLen(b, cur.n)
-		if accA != accB {
+		if (!subset && accA != accB) || (subset && accA && !accB) {
 			return false, cur.word, nil
 		}
 		unbounded := a.Hi < 0 && b.Hi < 0
